@@ -214,6 +214,15 @@ Lemma takeZ_cons n x t : 0 < n -> takeZ n (x :: t) = x :: takeZ (n - 1) t.
 Proof. intros. simpl. destruct (Z.leb_spec n 0); [lia | reflexivity]. Qed.
 Lemma dropZ_cons n x t : 0 < n -> dropZ n (x :: t) = dropZ (n - 1) t.
 Proof. intros. simpl. destruct (Z.leb_spec n 0); [lia | reflexivity]. Qed.
+Lemma takeZ_takeZ a b (l : list Z) : takeZ a (takeZ b l) = takeZ (Z.min a b) l.
+Proof.
+  revert a b. induction l as [|x t IH]; intros a b; simpl.
+  - destruct (b <=? 0); reflexivity.
+  - destruct (Z.leb_spec b 0).
+    + simpl. destruct (Z.leb_spec (Z.min a b) 0); [reflexivity|lia].
+    + simpl. destruct (Z.leb_spec a 0); destruct (Z.leb_spec (Z.min a b) 0); try lia; try reflexivity.
+      f_equal. rewrite IH. f_equal. lia.
+Qed.
 Lemma takeZ_nil n : takeZ n [] = [].
 Proof. reflexivity. Qed.
 Lemma dropZ_nil n : dropZ n [] = [].
@@ -617,6 +626,43 @@ Proof.
     repeat split; auto; rewrite in_app_iff; tauto.
 Qed.
 End NoFault.
+
+(** the same for the read-until-would-block loop [drainw]: every call either is the final one (returned 0,
+    consumed nothing, kernel buffer empty) or decreases a measure *)
+Section NoFaultW.
+Context {S : Type} (body : S -> prog S) (inv : S -> Prop) (m : S -> list Z -> nat).
+Hypothesis call_okw : forall s kb o k e, inv s -> exec (body s) kb = (o, k, e) ->
+  match o with
+  | None => False
+  | Some (s1, r) => 0 <= r -> inv s1 /\
+      ((r = 0 /\ lenZ k = lenZ kb /\ kb = []) \/ ((r <> 0 \/ lenZ k <> lenZ kb) /\ (m s1 k < m s kb)%nat))
+  end.
+
+Lemma drainw_ok : forall fu s kb more w e, inv s -> (m s kb < fu)%nat -> drainw body fu s kb more = (w, e) ->
+  ~ In EFault e /\ ~ In ELive e /\ (dead w = 0 -> inv (inner w)) /\ dead w <> 2 /\ dead w <> 3.
+Proof.
+  induction fu as [|fu IH]; intros s kb more w e I L D; [lia|].
+  simpl drainw in D.
+  destruct (match kb with [] => negb more | _ :: _ => false end).
+  { inversion D; subst. simpl. repeat split; auto; discriminate. }
+  destruct (exec (body s) kb) as [[o k1] e1] eqn:E.
+  pose proof (call_okw _ _ _ _ _ I E) as CK.
+  destruct o as [[s1 r]|]; [|contradiction].
+  destruct (exec_some_quiet _ _ _ _ _ E) as [Q1 Q2].
+  destruct (Z.ltb_spec r 0).
+  { inversion D; subst. simpl. repeat split; auto; discriminate. }
+  assert (R0' : 0 <= r) by lia.
+  destruct (CK R0') as [I1 [(R0 & LK & KN)|(NP & LT)]].
+  - subst r kb. rewrite LK in D. rewrite Z.eqb_refl in D. simpl in D. inversion D; subst. simpl.
+    repeat split; auto; discriminate.
+  - assert (C : (r =? 0) && (lenZ k1 =? lenZ kb) = false).
+    { apply andb_false_iff. destruct NP as [NP|NP]; [left|right]; apply Z.eqb_neq; exact NP. }
+    rewrite C in D. destruct (drainw body fu s1 k1 (0 <? r)) as [w' e'] eqn:D'. inversion D; subst.
+    assert (LT' : (m s1 k1 < fu)%nat) by lia.
+    destruct (IH _ _ _ _ _ I1 LT' D') as (A & B & C' & D2 & D3).
+    repeat split; auto; rewrite in_app_iff; tauto.
+Qed.
+End NoFaultW.
 
 Lemma drain_step {S} (body : S -> prog S) fu s kb : kb <> [] ->
   drain body (Datatypes.S fu) s kb =
